@@ -124,6 +124,10 @@ PROPS.update({
 # ---- texts brought up to date in the fourth session (functions verified since: projections, signature vector, generators, chain step,
 # transition matrix, s-centralities); they replace the entries above
 _NEW = {
+    'C09': dict(level="exploration",
+          technique='contract-based deductive verification (AST->VC, z3) of the binary incidence matrix and the node mapping (hye_list_to_binary_incidence, Hypergraph.get_mapping, get_inverse_mapping, binary_incidence_matrix and its method form) over assumed library contracts of LabelEncoder and the scipy COO constructor + bounded run-time contract checking of every matrix/tensor function entry by entry against the definition under the returned mapping',
+          text="Proved for every hypergraph: the returned mapping is a bijection between 0..N-1 and the nodes; the binary incidence matrix has shape (nodes, hyperedges), entries 0/1, and column c is the indicator, under the mapping, of the c-th hyperedge handed out by get_edges() (every hyperedge exactly one column); the coordinate kernel addresses every (member, column) pair exactly once, nothing else, and raises ValueError exactly for a shape that is too small. Weighted incidence (column/weight pairing relies on dict order, which the model does not have), adjacency, Laplacians, degree matrix, tensor and temporal matrices (scipy products; 8-bit wrap-around) are outside the deductive engine: all hypergraphs on <= 4 nodes (six label/weight variants), all temporal hypergraphs with <= 3 timed hyperedges, seeded random larger ones, every order present or absent, keep_isolated_nodes both ways, entry by entry.",
+          design_ref='DESIGN.md §7 C09', assumptions=['sklearn LabelEncoder.fit numbers the fitted labels 0..N-1 bijectively; transform is element-wise and raises ValueError for an unknown label; classes_ lists every label once', 'scipy.sparse.coo_array: ValueError unless the coordinate lists are equally long and inside the shape; an entry addressed by no coordinate is 0, by exactly one coordinate its datum; the element type holds 0 / 1 exactly; tocsr() keeps the table', 'node labels are integers in the model']),
     'C11': dict(level="exploration",
           technique='contract-based deductive verification (AST->VC, z3; two lemmas in Lean) of the connectivity test _is_connected that selects the patterns and the node subsets + bounded run-time contract checking of the motif census against brute-force enumeration of all 3-/4-node subsets, relabelling and insertion-order invariance',
           text="_is_connected(edges, N) is proved, for every list of duplicate-free tuples and every N >= 1, to return True exactly when the list is non-empty, exactly N labels occur, every label has a neighbour and all labels lie in one reachability class (least set closed under sharing a listed tuple) - through loop invariants over the real adjacency-building loops and the real queue search. The census itself (three enumerators with closures over mutable dictionaries, recursion and itertools; a global counting identity) is outside the deductive engine: it is checked on all hypergraphs of a stated small scope (all 2048 on 4 nodes, 5 nodes with few hyperedges), all relabellings, and seeded random ones; the 6 / 171 classes are recomputed independently. For directed censuses the statement defines no count oracle: only invariance, canonical representatives and 'larger hyperedges ignored' are checked.",
